@@ -177,7 +177,7 @@ def split_top(toks: List[Tok], sep: str) -> List[List[Tok]]:
     return parts
 
 
-def filter_attrs(attrs: List[List[Tok]], rep: Report) -> Tuple[str, bool]:
+def filter_attrs(attrs: List[List[Tok]], rep: Report, structural_ok: bool = False) -> Tuple[str, bool]:
     """-> (text of the attributes that are kept, had #[from])"""
     out = []
     for a in attrs:
@@ -189,6 +189,10 @@ def filter_attrs(attrs: List[List[Tok]], rep: Report) -> Tuple[str, bool]:
             for n in names:
                 if n not in keep:
                     rep.drop(f"derive({n})")
+            if structural_ok and "PartialEq" in [k.split("::")[-1] for k in keep] and "Eq" in [k.split("::")[-1] for k in keep]:
+                # G3: rustc's derived PartialEq is structural equality; tell Verus so
+                keep.append("Structural")
+                rep.rule("G3 derive(Structural) added next to derive(PartialEq, Eq)")
             if keep:
                 out.append("#[derive(" + ", ".join(keep) + ")]")
         elif name in ("error", "from", "serde", "allow", "doc", "inline", "must_use", "non_exhaustive", "source"):
@@ -524,8 +528,12 @@ def apply_lift(toks: List[Tok], lf: Lift, rep: Report, fn: str, leafs: List[Tupl
     lname = m.group(1)
     params = m.group(3)
     args = []
+    is_method = False
     for p in split_top(lex(params), ","):
         if p:
+            if norm(p) in ("&self", "self", "&mut self"):
+                is_method = True
+                continue
             a = p[0].text if p[0].text != "mut" else p[1].text
             args.append(a)
     if lf.mode == "let":
@@ -561,10 +569,10 @@ def apply_lift(toks: List[Tok], lf: Lift, rep: Report, fn: str, leafs: List[Tupl
     cut = toks[lo:hi + 1]
     if any(t.kind == "ident" and t.text in ("return", "break", "continue") for t in cut) or any(is_p(t, "?") for t in cut):
         raise Undecided(f"lift {lname}: expression contains control flow")
-    leafs.append((lf.sig, cut))
+    leafs.append((lf.sig, cut, is_method))
     rep.lifts.append({"name": lname, "fn": fn, "anchor": f"{lf.mode} {lf.key}#{lf.k}", "text": render(cut).strip()})
     rep.rule("R6 lift expression to external_body leaf")
-    call = syn(f"{lname}({', '.join(args)})", cut[0].pos, cut[0].ws)
+    call = syn(("self." if is_method else "") + f"{lname}({lf.args or ', '.join(args)})", cut[0].pos, cut[0].ws)
     return toks[:lo] + [call] + toks[hi + 1:]
 
 
@@ -591,6 +599,17 @@ def loop_positions(toks: List[Tok]) -> List[Tuple[int, int, int]]:
     return res
 
 
+def compact(toks: List[Tok]) -> str:
+    out = ""
+    prev = None
+    for t in toks:
+        if prev is not None and prev.kind in ("ident", "num") and t.kind in ("ident", "num"):
+            out += " "
+        out += t.text
+        prev = t
+    return out
+
+
 def rule_R7(toks: List[Tok], k: int, rep: Report, fn: str) -> List[Tok]:
     """for (I, &X) in V.iter().enumerate() { B }  ->  index while loop
        for X in V.iter() / for &X in V.iter()     ->  index while loop (hidden index __i<k>)"""
@@ -603,20 +622,21 @@ def rule_R7(toks: List[Tok], k: int, rep: Report, fn: str) -> List[Tok]:
     if any(t.kind == "ident" and t.text in ("continue",) for t in body) or \
             any(t.kind == "life" for t in body):
         raise Undecided(f"R7: loop body of for #{k} in {fn} uses continue/labels")
-    txt = norm(head)
-    m = re.fullmatch(r"\( (\w+), &(\w+) \) in ([\w.]+)\.iter\(\)\.enumerate\(\)", txt)
+    txt = compact(head)
+    m = re.fullmatch(r"\((\w+),&(\w+)\)in ([\w.]+)\.iter\(\)\.enumerate\(\)", txt)
     pos = toks[kw].pos
+    idx = f"idx__{k}"
+    pre = f"let mut {idx}: usize = 0;"
     if m:
-        idx, x, v = m.group(1), m.group(2), m.group(3)
-        pre = f"let mut {idx}: usize = 0;"
-        bind = f"let {x} = {v}[{idx}];"
+        # the body may shadow the index name, so the loop counter is a fresh variable
+        i_name, x, v = m.group(1), m.group(2), m.group(3)
+        bind = f"let {i_name}: usize = {idx}; let {x} = {v}[{idx}];"
     else:
         m = re.fullmatch(r"&?(\w+) in ([\w.]+)\.iter\(\)", txt)
         if not m:
             raise Undecided(f"R7: unsupported for header `{txt}` in {fn}")
         amp = txt.startswith("&")
-        idx, x, v = f"idx__{k}", m.group(1), m.group(2)
-        pre = f"let mut {idx}: usize = 0;"
+        x, v = m.group(1), m.group(2)
         bind = f"let {x} = {'' if amp else '&'}{v}[{idx}];"
     if any(t.kind == "ident" and t.text == v.split(".")[0] and i + 1 < len(body) and is_p(body[i + 1], ".") and
            body[i + 2].text in ("push", "clear", "remove", "insert", "truncate", "swap_remove") for i, t in enumerate(body)):
@@ -649,10 +669,16 @@ def inject_loops(toks: List[Tok], fs: FnSpec, fnq: str) -> List[Tok]:
             spec += " decreases " + ", ".join(ent["decreases"]) + "\n"
         if spec:
             ins_before.setdefault(bo, []).append(syn(spec, pos, "", tag=f"{fnq}.loop{k}.invariant"))
+        bs = bo
+        while bs + 1 < len(toks) and toks[bs + 1].kind == "syn" and getattr(toks[bs + 1], "tag", None) is None:
+            bs += 1      # stay behind the bindings that rule R7 generated
         for g in ent.get("body_start", []):
-            ins_after.setdefault(bo, []).append(syn(g, toks[bo].pos, "\n", tag=f"{fnq}.loop{k}.body_start"))
+            ins_after.setdefault(bs, []).append(syn(g, toks[bo].pos, "\n", tag=f"{fnq}.loop{k}.body_start"))
+        be = bc
+        while be - 1 > bo and toks[be - 1].kind == "syn" and getattr(toks[be - 1], "tag", None) is None:
+            be -= 1      # stay in front of the counter increment that rule R7 generated
         for g in ent.get("body_end", []):
-            ins_before.setdefault(bc, []).append(syn(g, toks[bc].pos, "\n", tag=f"{fnq}.loop{k}.body_end"))
+            ins_before.setdefault(be, []).append(syn(g, toks[bc].pos, "\n", tag=f"{fnq}.loop{k}.body_end"))
         for g in ent.get("after", []):
             ins_after.setdefault(bc, []).append(syn(g, toks[bc].pos, "\n", tag=f"{fnq}.loop{k}.after"))
     out = []
@@ -692,7 +718,8 @@ class UnitBuilder:
         s = self.source(rel)
         it = s.find_type(kind, name)
         self.cut(s, it, f"{kind} {name}")
-        attrs, _ = filter_attrs(it.attrs, self.rep)
+        structural_ok = not any(t.kind == "ident" and t.text in ("str", "String", "Vec", "f32", "f64", "Box", "HashMap") for t in it.toks)
+        attrs, _ = filter_attrs(it.attrs, self.rep, structural_ok)
         toks = strip_vis(it.toks)
         froms: List[Tuple[str, Optional[str], str]] = []
         if it.body_open is not None:
@@ -733,7 +760,7 @@ class UnitBuilder:
         for i, t in enumerate(toks):
             out.append(t)
             if i < eq and is_p(t, "&") and toks[i + 1].kind == "ident" and toks[i + 1].text == "str":
-                out.append(syn("'static", t.pos, ""))
+                out.append(syn("'static ", t.pos, ""))
                 self.rep.rule("R4 &str -> &'static str in const type")
         if "external" in parts[1:]:
             self.out.text("#[verifier::external]\n", kind="gen")
@@ -779,7 +806,7 @@ class UnitBuilder:
                     eq = next(i for i, t in enumerate(ch.toks) if is_p(t, "="))
                     err_toks = ch.toks[eq + 1:-1]
         # body transformations
-        leafs: List[Tuple[str, List[Tok]]] = []
+        leafs: List[tuple] = []
         if fs.kind == "fn":
             for lf in fs.lifts:
                 body = apply_lift(body, lf, self.rep, fnq, leafs)
@@ -888,13 +915,16 @@ class UnitBuilder:
                         f"    open spec fn obeys_from_spec() -> bool {{ false }}\n"
                         f"    open spec fn from_spec(v: {arg}) -> Self {{ arbitrary() }}\n}}\n", kind="gen")
                 self.rep.rule("G2 vstd spec-marker impl generated for trait impl")
-        for sigtxt, cut in leafs:
+        for sigtxt, cut, is_method in leafs:
             lo = self.out.line
+            if is_method:
+                ty = imp.name.split(" for ")[-1] if is_trait else imp.name[len("impl "):]
+                self.out.text(f"impl {ty} {{\n", kind="gen")
             self.out.text("#[verifier::external_body]\npub " + sigtxt.strip() + "\n{ ", kind="gen")
             cut = list(cut)
             cut[0] = Tok(cut[0].kind, cut[0].text, cut[0].pos, "")
             self.out.toks(cut, s, fnq + " (lift)")
-            self.out.text(" }\n", kind="gen")
+            self.out.text(" }\n" + ("}\n" if is_method else ""), kind="gen")
 
     # -- whole unit -------------------------------------------------------
     def build(self) -> str:
